@@ -36,6 +36,15 @@ def AExpr.unelimList : List AExpr → List Anno
   | e :: es => e.unelim ++ AExpr.unelimList es
 end
 
+mutual
+/-- the term and all its sub-expressions (each with its own annotations) -/
+def AExpr.subterms : AExpr → List AExpr
+  | .mk t args an => .mk t args an :: AExpr.subtermsList args
+def AExpr.subtermsList : List AExpr → List AExpr
+  | [] => []
+  | e :: es => e.subterms ++ AExpr.subtermsList es
+end
+
 /-- `_relocatable_annotations`: the node's own annotations that are relocatable (children's relocatable
 annotations have been copied onto the node by `mkNode`) -/
 def AExpr.relocs (e : AExpr) : List Anno := e.annos.filter isReloc
